@@ -313,3 +313,17 @@ Definition total_ge_content (pkt : obj) : Prop :=
   | Some t, Some c => (c <= t)%Z
   | _, _ => True
   end.
+
+(* the packet-features objects of a configuration (one per data stream type that has one) *)
+Definition jget (k : string) (j : json) : option json :=
+  match j with JObj m => lookup k m | _ => None end.
+Definition obind {A B} (o : option A) (f : A -> option B) : option B :=
+  match o with Some a => f a | None => None end.
+Definition jvalues (o : option json) : list json :=
+  match o with Some (JObj m) => map snd m | _ => [] end.
+Definition cfg_packet_features (cfg : json) : list obj :=
+  flat_map (fun dst => match obind (jget "$features" dst) (jget "packet") with
+                       | Some (JObj p) => [p] | _ => [] end)
+           (jvalues (obind (obind (jget "trace" cfg) (jget "type")) (jget "data-stream-types"))).
+Definition doc_total_ge_content (cfg : json) : Prop :=
+  forall p, In p (cfg_packet_features cfg) -> total_ge_content p.
